@@ -87,14 +87,25 @@ class Session:
         from core import ConnectionManager, matcher
         from core.output import Output, stream
         from frontends.tui import Controller
+        f = b = None
+        if filter_text or break_text:
+            # matchers given at start come from the command line: take them from the tool's own option parser, as main.py does
+            import io, contextlib
+            from frontends.tui.arguments import parse_args
+            argv = ['main.py', '--color' if color else '-C', '-p']
+            if filter_text: argv += ['-f', filter_text]
+            if break_text: argv += ['-b', break_text]
+            with contextlib.redirect_stdout(io.StringIO()), contextlib.redirect_stderr(io.StringIO()):
+                a = parse_args(argv)
+            f, b = a.filter_matcher, a.stop_matcher
         env.reset_globals(color=color)
         self.matcher = matcher
         self.out = stream.String()
         self.err = stream.String()
         self.output = Output(False, show_unprocessed, self.out, self.err)
         self.cm = ConnectionManager()
-        f = matcher.parse(filter_text).simplify() if filter_text else matcher.always
-        b = matcher.parse(break_text).simplify() if break_text else matcher.never
+        f = f if f is not None else matcher.always
+        b = b if b is not None else matcher.never
         self.ctl = Controller(self.output, self.cm, f, b)
         self.segments = []
         self.cur = None
